@@ -476,3 +476,55 @@ Proof.
     brk; try discriminate;
     first [apply table_flow_not99 | apply new_flow_not99 | (unfold empty_flow; apply new_flow_not99)].
 Qed.
+
+(* every flow of a whole packet is the flow of the corresponding layer constructor on that
+   layer's bytes, so the per-layer theorems apply level by level *)
+Lemma transport_of_layer proto payload f : transport_of proto payload = Ok (Some f) ->
+  exists k, In k [LTCP; LUDP; LSCTP] /\ layer_flow k payload = Ok f.
+Proof.
+  unfold transport_of. destruct (Nat.eqb (length payload) 0); [discriminate|].
+  destruct (proto =? 6); [exists LTCP|destruct (proto =? 17); [exists LUDP|destruct (proto =? 132); [exists LSCTP|discriminate]]];
+    (split; [cbn; auto|]);
+    match goal with |- context [layer_flow ?k payload] => destruct (layer_flow k payload) eqn:E end;
+    try discriminate; inversion H; reflexivity.
+Qed.
+
+Lemma stack_levels data st : stack_flows data = Ok st ->
+  (forall f, st_link st = Some f -> layer_flow LEthernet data = Ok f) /\
+  (forall f, st_net st = Some f ->
+     layer_flow LIPv4 (skipn 14 data) = Ok f \/ layer_flow LIPv6 (skipn 14 data) = Ok f) /\
+  (forall f, st_tr st = Some f ->
+     exists k payload, In k [LTCP; LUDP; LSCTP] /\ layer_flow k payload = Ok f).
+Proof.
+  unfold stack_flows.
+  destruct (layer_flow LEthernet data) as [lf| |] eqn:EL; try discriminate.
+  2:{ intros H; inversion H; subst; cbn. repeat split; intros f E; discriminate. }
+  destruct (Nat.eqb (length (skipn 14 data)) 0).
+  { intros H; inversion H; subst; cbn. repeat split; intros f E; try discriminate. inversion E; subst; reflexivity. }
+  destruct (be16 data 12 =? 2048).
+  - destruct (layer_flow LIPv4 (skipn 14 data)) as [nf| |] eqn:EN; try discriminate.
+    assert (Base0 : forall st', st' = mkSt (Some lf) (Some nf) None ->
+      (forall f, st_link st' = Some f -> Ok lf = Ok f) /\
+      (forall f, st_net st' = Some f -> Ok nf = Ok f \/ layer_flow LIPv6 (skipn 14 data) = Ok f) /\
+      (forall f, st_tr st' = Some f -> exists k payload, In k [LTCP; LUDP; LSCTP] /\ layer_flow k payload = Ok f)).
+    { intros st' ->; cbn. repeat split; intros f E; try discriminate; inversion E; subst; auto. }
+    destruct (ip4_decode (skipn 14 data)); try solve [intros H; inversion H; subst; apply Base0; reflexivity].
+    destruct (ip4_next (skipn 14 data)) as [[t|]| |] eqn:ET; try discriminate;
+      intros H; inversion H; subst; [|apply Base0; reflexivity].
+    cbn. repeat split; intros f E; inversion E; subst; auto.
+    unfold ip4_next in ET. cbv zeta in ET. destruct (_ || _)%bool in ET; [discriminate|].
+    apply transport_of_layer in ET. destruct ET as (k & Hk & Hl). exists k. eexists. split; [exact Hk|exact Hl].
+  - destruct (be16 data 12 =? 34525); [|discriminate].
+    destruct (layer_flow LIPv6 (skipn 14 data)) as [nf| |] eqn:EN; try discriminate.
+    assert (Base0 : forall st', st' = mkSt (Some lf) (Some nf) None ->
+      (forall f, st_link st' = Some f -> Ok lf = Ok f) /\
+      (forall f, st_net st' = Some f -> layer_flow LIPv4 (skipn 14 data) = Ok f \/ Ok nf = Ok f) /\
+      (forall f, st_tr st' = Some f -> exists k payload, In k [LTCP; LUDP; LSCTP] /\ layer_flow k payload = Ok f)).
+    { intros st' ->; cbn. repeat split; intros f E; try discriminate; inversion E; subst; auto. }
+    destruct (length (skipn 14 data) <? 40)%nat; [intros H; inversion H; subst; apply Base0; reflexivity|].
+    destruct (ip6_next (skipn 14 data)) as [[t|]| |] eqn:ET; try discriminate;
+      intros H; inversion H; subst; [|apply Base0; reflexivity].
+    cbn. repeat split; intros f E; inversion E; subst; auto.
+    unfold ip6_next in ET. cbv zeta in ET. destruct (_ =? 0) in ET; [discriminate|].
+    apply transport_of_layer in ET. destruct ET as (k & Hk & Hl). exists k. eexists. split; [exact Hk|exact Hl].
+Qed.
